@@ -74,7 +74,9 @@ func (w *world) freshView(u *universe, inc *View, i int) (*View, error) {
 }
 
 func runHistory(in *In) (*Out, error) {
-	w := newWorld(newKube())
+	kube, flt := newKubeF()
+	w := newWorld(kube)
+	w.faults = flt
 	if err := w.setupStorage(in.Pvcs); err != nil {
 		return nil, err
 	}
@@ -106,13 +108,32 @@ func runHistory(in *In) (*Out, error) {
 			case "rn", "rp":
 				st.R = w.reconcile(e.T, e.Name)
 				delete(dirty, kindOf(e.T)+"/"+e.Name)
+			case "rpf":
+				w.faults.volGet = true
+				st.R = func() string {
+					defer func() { w.faults.volGet = false }()
+					return w.reconcile("rp", e.Name)
+				}()
+				if st.R == "err" {
+					dirty["p/"+e.Name] = true // the reconcile failed: controller-runtime retries the key
+				} else {
+					delete(dirty, "p/"+e.Name)
+				}
 			case "rc":
 				w.reconcile(e.T, e.Name)
 				delete(dirty, kindOf(e.T)+"/"+e.Name)
 			case "mark":
-				w.cluster.MarkForDeletion(e.Pid)
+				if len(e.Pids) > 0 {
+					w.cluster.MarkForDeletion(e.Pids...)
+				} else {
+					w.cluster.MarkForDeletion(e.Pid)
+				}
 			case "unmark":
-				w.cluster.UnmarkForDeletion(e.Pid)
+				if len(e.Pids) > 0 {
+					w.cluster.UnmarkForDeletion(e.Pids...)
+				} else {
+					w.cluster.UnmarkForDeletion(e.Pid)
+				}
 			case "nominate":
 				w.cluster.NominateNodeForPod(w.ctx, e.Pid)
 			default:
